@@ -1,5 +1,6 @@
 import MdkVerif.Model.Crash
 import MdkVerif.Model.CrashCore
+import MdkVerif.Model.CrashSeq
 import MdkVerif.Proofs.Crash
 /-
   C12 — A crash at any storage step leaves a recoverable database (storage-level part).
@@ -114,9 +115,31 @@ observed sequence of crash classes along the ticks of every call must equal `Cra
 correspondence obligation checked on every run by `vlib/crashweng.py`).  None of these calls is bracketed
 by a transaction.  All statements below are for EVERY store on which the call runs for the first time. -/
 
+set_option linter.unusedSimpArgs false
+
 open CrashCore in
 /-- the abstract store, with the dedup record absent, nothing decrypted yet, record and MLS state in step -/
 def coreFresh (kind : CrashCore.Kind) (d : CrashCore.Db) : Prop := CrashCore.fresh kind d = true
+
+/-- **hand_sequence_matches_source.**  The effect sequences the core-level theorems below talk about ARE the
+    sequences of durable write steps translated from the current source (`Generated.writeSeq`, regenerated on
+    every run by tools/writeseq.py), step by step replaced by their effect on the projection.  A source change
+    that reorders, adds or drops a durable write of one of these calls changes the generated table; then this
+    statement no longer checks, and with it every prefix statement below that rewrites with it. -/
+theorem hand_sequence_matches_source :
+    CrashCore.writes .application = [.saveSecret, .consume, .saveMsg, .savePm 1, .setPtr] ∧
+    CrashCore.writes .commit = [.saveSecret, .consume, .snapshot, .bumpMls, .saveSecret, .syncRecord, .savePm 2] ∧
+    CrashCore.writes .welcome = [.saveGroup, .saveRelays, .saveWelcome, .savePw] ∧
+    CrashCore.writes .merge = [.dropPending, .bumpMls, .syncRecord] := by decide
+
+theorem writes_application : CrashCore.writes .application = [.saveSecret, .consume, .saveMsg, .savePm 1, .setPtr] :=
+  hand_sequence_matches_source.1
+theorem writes_commit : CrashCore.writes .commit = [.saveSecret, .consume, .snapshot, .bumpMls, .saveSecret, .syncRecord, .savePm 2] :=
+  hand_sequence_matches_source.2.1
+theorem writes_welcome : CrashCore.writes .welcome = [.saveGroup, .saveRelays, .saveWelcome, .savePw] :=
+  hand_sequence_matches_source.2.2.1
+theorem writes_merge : CrashCore.writes .merge = [.dropPending, .bumpMls, .syncRecord] :=
+  hand_sequence_matches_source.2.2.2
 
 theorem saveSecret_idem (d : CrashCore.Db) :
     CrashCore.applyW (CrashCore.applyW d .saveSecret) .saveSecret = CrashCore.applyW d .saveSecret := by
@@ -137,17 +160,17 @@ theorem core_application_prefix (d : CrashCore.Db) (hf : coreFresh .application 
   simp only [coreFresh, CrashCore.fresh, Bool.and_eq_true, beq_iff_eq, Bool.not_eq_true'] at hf
   obtain ⟨⟨⟨⟨h1, h2⟩, h3⟩, h4⟩, h5⟩ := hf
   refine ⟨?_, ?_, ?_, ?_, ?_⟩
-  · simp [CrashCore.recovered, CrashCore.crashAt, CrashCore.writes, CrashCore.run, CrashCore.retry, h1, h2]
+  · simp [CrashCore.recovered, CrashCore.crashAt, writes_application, writes_commit, writes_welcome, writes_merge, CrashCore.run, CrashCore.retry, h1, h2]
   · have : CrashCore.retry .application (CrashCore.crashAt .application 1 d) = CrashCore.complete .application d := by
-      simp only [CrashCore.crashAt, CrashCore.writes, CrashCore.run, List.take, List.foldl, CrashCore.retry]
+      simp only [CrashCore.crashAt, writes_application, writes_commit, writes_welcome, writes_merge, CrashCore.run, List.take, List.foldl, CrashCore.retry]
       have hp : (CrashCore.applyW d .saveSecret).pm = 0 := by simp [CrashCore.applyW, h1]
       have hc : (CrashCore.applyW d .saveSecret).consumed = false := by simp [CrashCore.applyW, h2]
       simp only [hp, hc]
-      simp [CrashCore.complete, CrashCore.writes, CrashCore.run, List.foldl, saveSecret_idem]
+      simp [CrashCore.complete, writes_application, writes_commit, writes_welcome, writes_merge, CrashCore.run, List.foldl, saveSecret_idem]
     simp [CrashCore.recovered, this]
-  · simp [CrashCore.recovered, CrashCore.obs, CrashCore.crashAt, CrashCore.writes, CrashCore.run, CrashCore.retry, CrashCore.complete, CrashCore.applyW, h1, h5]
-  · simp [CrashCore.recovered, CrashCore.obs, CrashCore.crashAt, CrashCore.writes, CrashCore.run, CrashCore.retry, CrashCore.complete, CrashCore.applyW, h1, h5]
-  · simp [CrashCore.recovered, CrashCore.obs, CrashCore.crashAt, CrashCore.writes, CrashCore.run, CrashCore.retry, CrashCore.complete, CrashCore.applyW, h5]
+  · simp [CrashCore.recovered, CrashCore.obs, CrashCore.crashAt, writes_application, writes_commit, writes_welcome, writes_merge, CrashCore.run, CrashCore.retry, CrashCore.complete, CrashCore.applyW, h1, h5]
+  · simp [CrashCore.recovered, CrashCore.obs, CrashCore.crashAt, writes_application, writes_commit, writes_welcome, writes_merge, CrashCore.run, CrashCore.retry, CrashCore.complete, CrashCore.applyW, h1, h5]
+  · simp [CrashCore.recovered, CrashCore.obs, CrashCore.crashAt, writes_application, writes_commit, writes_welcome, writes_merge, CrashCore.run, CrashCore.retry, CrashCore.complete, CrashCore.applyW, h5]
 
 /-- **core_commit_prefix.**  A commit of another member: recoverable only before the decryption; afterwards
     the retry is refused in every prefix — with the snapshot left behind, with the MLS rows already at the
@@ -159,20 +182,20 @@ theorem core_commit_prefix (d : CrashCore.Db) (hf : coreFresh .commit d) :
   simp only [coreFresh, CrashCore.fresh, Bool.and_eq_true, beq_iff_eq, Bool.not_eq_true'] at hf
   obtain ⟨⟨⟨h1, h2⟩, h3⟩, h4⟩ := hf
   refine ⟨?_, ?_, ?_, ?_⟩
-  · simp [CrashCore.recovered, CrashCore.crashAt, CrashCore.writes, CrashCore.run, CrashCore.retry, h1, h2]
+  · simp [CrashCore.recovered, CrashCore.crashAt, writes_application, writes_commit, writes_welcome, writes_merge, CrashCore.run, CrashCore.retry, h1, h2]
   · have : CrashCore.retry .commit (CrashCore.crashAt .commit 1 d) = CrashCore.complete .commit d := by
-      simp only [CrashCore.crashAt, CrashCore.writes, CrashCore.run, List.take, List.foldl, CrashCore.retry]
+      simp only [CrashCore.crashAt, writes_application, writes_commit, writes_welcome, writes_merge, CrashCore.run, List.take, List.foldl, CrashCore.retry]
       have hp : (CrashCore.applyW d .saveSecret).pm = 0 := by simp [CrashCore.applyW, h1]
       have hc : (CrashCore.applyW d .saveSecret).consumed = false := by simp [CrashCore.applyW, h2]
       simp only [hp, hc]
-      simp [CrashCore.complete, CrashCore.writes, CrashCore.run, List.foldl, saveSecret_idem]
+      simp [CrashCore.complete, writes_application, writes_commit, writes_welcome, writes_merge, CrashCore.run, List.foldl, saveSecret_idem]
     simp [CrashCore.recovered, this]
   · intro k hk1 hk2
     have : k = 2 ∨ k = 3 ∨ k = 4 ∨ k = 5 := by omega
     rcases this with e | e | e | e <;> subst e <;>
-      simp [CrashCore.recovered, CrashCore.obs, CrashCore.crashAt, CrashCore.writes, CrashCore.run, CrashCore.retry, CrashCore.complete, CrashCore.applyW, h1] <;>
+      simp [CrashCore.recovered, CrashCore.obs, CrashCore.crashAt, writes_application, writes_commit, writes_welcome, writes_merge, CrashCore.run, CrashCore.retry, CrashCore.complete, CrashCore.applyW, h1] <;>
       (try (intros; omega))
-  · simp [CrashCore.recovered, CrashCore.obs, CrashCore.crashAt, CrashCore.writes, CrashCore.run, CrashCore.retry, CrashCore.complete, CrashCore.applyW, h1]
+  · simp [CrashCore.recovered, CrashCore.obs, CrashCore.crashAt, writes_application, writes_commit, writes_welcome, writes_merge, CrashCore.run, CrashCore.retry, CrashCore.complete, CrashCore.applyW, h1]
 
 /-- **core_welcome_prefix.**  `process_welcome`: every prefix is recoverable — the group record and the
     relays are idempotent upserts, and since /repo fed41a9 the welcome is stored BEFORE its processed-welcome
@@ -185,13 +208,13 @@ theorem core_welcome_prefix (d : CrashCore.Db) (hf : coreFresh .welcome d) :
   intro k
   have : k = 0 ∨ k = 1 ∨ k = 2 ∨ k = 3 ∨ 4 ≤ k := by omega
   rcases this with e | e | e | e | e
-  · subst e; simp [CrashCore.recovered, CrashCore.obs, CrashCore.crashAt, CrashCore.writes, CrashCore.run, CrashCore.retry, CrashCore.complete, CrashCore.applyW, h2, h3]
-  · subst e; simp [CrashCore.recovered, CrashCore.obs, CrashCore.crashAt, CrashCore.writes, CrashCore.run, CrashCore.retry, CrashCore.complete, CrashCore.applyW, h2, h3]
-  · subst e; simp [CrashCore.recovered, CrashCore.obs, CrashCore.crashAt, CrashCore.writes, CrashCore.run, CrashCore.retry, CrashCore.complete, CrashCore.applyW, h2, h3]
-  · subst e; simp [CrashCore.recovered, CrashCore.obs, CrashCore.crashAt, CrashCore.writes, CrashCore.run, CrashCore.retry, CrashCore.complete, CrashCore.applyW, h2, h3]
-  · have ht : (CrashCore.writes .welcome).take k = CrashCore.writes .welcome := List.take_of_length_le (by simp [CrashCore.writes]; omega)
+  · subst e; simp [CrashCore.recovered, CrashCore.obs, CrashCore.crashAt, writes_application, writes_commit, writes_welcome, writes_merge, CrashCore.run, CrashCore.retry, CrashCore.complete, CrashCore.applyW, h2, h3]
+  · subst e; simp [CrashCore.recovered, CrashCore.obs, CrashCore.crashAt, writes_application, writes_commit, writes_welcome, writes_merge, CrashCore.run, CrashCore.retry, CrashCore.complete, CrashCore.applyW, h2, h3]
+  · subst e; simp [CrashCore.recovered, CrashCore.obs, CrashCore.crashAt, writes_application, writes_commit, writes_welcome, writes_merge, CrashCore.run, CrashCore.retry, CrashCore.complete, CrashCore.applyW, h2, h3]
+  · subst e; simp [CrashCore.recovered, CrashCore.obs, CrashCore.crashAt, writes_application, writes_commit, writes_welcome, writes_merge, CrashCore.run, CrashCore.retry, CrashCore.complete, CrashCore.applyW, h2, h3]
+  · have ht : (CrashCore.writes .welcome).take k = CrashCore.writes .welcome := List.take_of_length_le (by simp [writes_welcome]; omega)
     simp only [CrashCore.recovered, CrashCore.crashAt, ht]
-    simp [CrashCore.obs, CrashCore.writes, CrashCore.run, CrashCore.retry, CrashCore.complete, CrashCore.applyW]
+    simp [CrashCore.obs, writes_welcome, CrashCore.run, CrashCore.retry, CrashCore.complete, CrashCore.applyW]
 
 /-- **core_merge_prefix.**  `merge_pending_commit`: the pending commit is deleted FIRST; a death right after
     loses it (the commit was published, the others move on, this client can never apply its own commit); a
@@ -202,7 +225,7 @@ theorem core_merge_prefix (d : CrashCore.Db) (hf : coreFresh .merge d) :
   simp only [coreFresh, CrashCore.fresh, Bool.and_eq_true, beq_iff_eq] at hf
   obtain ⟨h1, h2⟩ := hf
   refine ⟨?_, ?_, ?_⟩ <;>
-    simp [CrashCore.recovered, CrashCore.obs, CrashCore.crashAt, CrashCore.writes, CrashCore.run, CrashCore.retry, CrashCore.complete, CrashCore.applyW, h1, h2]
+    simp [CrashCore.recovered, CrashCore.obs, CrashCore.crashAt, writes_application, writes_commit, writes_welcome, writes_merge, CrashCore.run, CrashCore.retry, CrashCore.complete, CrashCore.applyW, h1, h2]
 
 /-- the classification function is sound: whatever it calls recoverable is recovered, and nothing else is -/
 theorem core_classify_sound (kind : CrashCore.Kind) (d : CrashCore.Db) (hf : coreFresh kind d) (k : Nat)
@@ -211,11 +234,11 @@ theorem core_classify_sound (kind : CrashCore.Kind) (d : CrashCore.Db) (hf : cor
   cases kind with
   | application =>
     obtain ⟨a0, a1, a2, a3, a4⟩ := core_application_prefix d hf
-    have : k = 0 ∨ k = 1 ∨ k = 2 ∨ k = 3 ∨ k = 4 := by simp [CrashCore.writes] at hk; omega
+    have : k = 0 ∨ k = 1 ∨ k = 2 ∨ k = 3 ∨ k = 4 := by simp [writes_application, writes_commit, writes_welcome, writes_merge] at hk; omega
     rcases this with e | e | e | e | e <;> subst e <;> simp [CrashCore.classify, CrashCore.Class.harmless, *]
   | commit =>
     obtain ⟨a0, a1, a2, a3⟩ := core_commit_prefix d hf
-    have : k = 0 ∨ k = 1 ∨ (2 ≤ k ∧ k ≤ 5) ∨ k = 6 := by simp [CrashCore.writes] at hk; omega
+    have : k = 0 ∨ k = 1 ∨ (2 ≤ k ∧ k ≤ 5) ∨ k = 6 := by simp [writes_application, writes_commit, writes_welcome, writes_merge] at hk; omega
     rcases this with e | e | ⟨e1, e2⟩ | e
     · subst e; simp [CrashCore.classify, CrashCore.Class.harmless, a0]
     · subst e; simp [CrashCore.classify, CrashCore.Class.harmless, a1]
@@ -225,11 +248,11 @@ theorem core_classify_sound (kind : CrashCore.Kind) (d : CrashCore.Db) (hf : cor
     · subst e; simp [CrashCore.classify, CrashCore.Class.harmless, a3]
   | welcome =>
     have := core_welcome_prefix d hf k
-    have hk' : k = 0 ∨ k = 1 ∨ k = 2 ∨ k = 3 := by simp [CrashCore.writes] at hk; omega
+    have hk' : k = 0 ∨ k = 1 ∨ k = 2 ∨ k = 3 := by simp [writes_application, writes_commit, writes_welcome, writes_merge] at hk; omega
     rcases hk' with e | e | e | e <;> subst e <;> simp [CrashCore.classify, CrashCore.Class.harmless, this]
   | merge =>
     obtain ⟨a0, a1, a2⟩ := core_merge_prefix d hf
-    have : k = 0 ∨ k = 1 ∨ k = 2 := by simp [CrashCore.writes] at hk; omega
+    have : k = 0 ∨ k = 1 ∨ k = 2 := by simp [writes_application, writes_commit, writes_welcome, writes_merge] at hk; omega
     rcases this with e | e | e <;> subst e <;> simp [CrashCore.classify, CrashCore.Class.harmless, *]
 
 /-- the full-strength property at the mdk-core level: EVERY crash point of EVERY call is recoverable -/
@@ -280,5 +303,158 @@ theorem C12_core_full_false : ¬ C12_core_full := by
   intro h
   have := h .commit coreDemo 4 (by simp [coreFresh]; decide)
   revert this; decide
+
+/-! ## every entry point of the regenerated table (`Model.CrashSeq`)
+
+`Generated.writeSeq` is re-extracted from the source on every run; everything below is a statement about that
+table.  A store is one of `CrashSeq.freshStores case`: the store on which the call runs for the first time, with
+the exporter secret of the current epoch cached or not (the only pre-state unknown the effects depend on). -/
+
+open CrashSeq in
+/-- **classify_sound_all.**  For EVERY classified case of the regenerated table, every success path, every proper
+    prefix `k` and every fresh store `d`, with `c` the class the decision procedure `classifyG` assigns (the one
+    `vlib/crashweng.py` applies to the real store) and `r` = the crash point is recovered (a re-delivered event ends
+    in the uninterrupted run's observable state; an interrupted local call leaves a usable store):
+    a class called harmless is recovered; a recovered point is called harmless or differs in the dedup record of
+    the event only; a point that is not recovered carries a named mechanism; and neither `c` nor `r` depends on
+    which fresh store it is. -/
+theorem classify_sound_all (case : Nat) (paths : List (List Nat)) (hc : (case, paths) ∈ Generated.writeSeq)
+    (hm : CrashSeq.modelled case = true) (p : List Nat) (hp : p ∈ paths) (k : Nat)
+    (hk : k < (CrashCore.expand case p).length) (d : CrashCore.Db) (hd : d ∈ CrashSeq.freshStores case) :
+    let ws := CrashCore.expand case p
+    let c := CrashSeq.classifyG (CrashSeq.modeOf case) ws k d
+    let r := CrashSeq.recoveredG (CrashSeq.modeOf case) ws k d
+    (c.harmless = true → r = true) ∧
+    (r = true → c.harmless = true ∨ CrashSeq.recordOnly (CrashSeq.modeOf case) ws k d = true) ∧
+    (r = false → c ≠ .other ∧ c ≠ .recoverable) ∧
+    c = CrashSeq.classifyG (CrashSeq.modeOf case) ws k (CrashSeq.freshStore case false) ∧
+    r = CrashSeq.recoveredG (CrashSeq.modeOf case) ws k (CrashSeq.freshStore case false) := by
+  have h : CrashSeq.soundAll = true := by decide
+  unfold CrashSeq.soundAll at h
+  rw [List.all_eq_true] at h
+  have h1 := h (case, paths) (List.mem_filter.mpr ⟨hc, hm⟩)
+  rw [List.all_eq_true] at h1
+  have h2 := h1 p hp
+  rw [List.all_eq_true] at h2
+  have h3 := h2 k (List.mem_range.mpr hk)
+  rw [List.all_eq_true] at h3
+  have h4 := h3 d hd
+  unfold CrashSeq.soundAt at h4
+  simp only [Bool.and_eq_true, Bool.or_eq_true, Bool.not_eq_true', beq_iff_eq, bne_iff_ne] at h4
+  obtain ⟨⟨⟨⟨a1, a2⟩, a3⟩, a4⟩, a5⟩ := h4
+  refine ⟨?_, ?_, ?_, a4, a5⟩
+  · intro hh; rcases a1 with x | x
+    · rw [x] at hh; cases hh
+    · exact x
+  · intro hr; rcases a2 with (x | x) | x
+    · rw [x] at hr; cases hr
+    · exact Or.inl x
+    · exact Or.inr x
+  · intro hr; rcases a3 with x | x
+    · rw [x] at hr; cases hr
+    · exact x
+
+/-- **unrecoverable_prefixes.**  The exact set of (case, path, number of effects performed, mechanism) of the
+    regenerated table at which a process death is NOT recovered.  A source change that opens a new such prefix — or
+    closes one — changes this list: the obligation has a name. -/
+theorem unrecoverable_prefixes :
+    CrashSeq.openPrefixes =
+      [(0, 0, 2, .decryptConsumed), (0, 0, 3, .msgSavedNoRecord), (0, 0, 4, .dedupBlocks), (0, 1, 2, .decryptConsumed),
+       (1, 0, 2, .decryptConsumed), (1, 0, 3, .snapshotLeft), (1, 0, 4, .tornMerge), (1, 0, 5, .tornMerge),
+       (4, 0, 2, .decryptConsumed), (5, 0, 2, .decryptConsumed), (5, 0, 3, .decryptConsumed), (5, 1, 2, .decryptConsumed),
+       (14, 0, 2, .tornAccept),
+       (23, 0, 1, .pendingLost), (23, 0, 2, .tornMerge), (23, 1, 1, .pendingLost), (23, 1, 2, .tornMerge)] := by decide
+
+/-- **unrecoverable_signatures.**  Mechanism × call kind of the open prefixes: the open crash findings of
+    known_findings.jsonl (`<mechanism>:<call>`; `./check C12` compares the two lists: `tie:c12-open-findings`).
+    Call kinds: 0 process_application, 1 process_commit, 2 process_proposal, 4 accept_welcome, 11 merge_pending_commit. -/
+theorem unrecoverable_signatures :
+    CrashSeq.openSignatures =
+      [(.msgSavedNoRecord, 0), (.dedupBlocks, 0), (.decryptConsumed, 0), (.decryptConsumed, 1), (.snapshotLeft, 1), (.tornMerge, 1),
+       (.decryptConsumed, 2), (.tornAccept, 4), (.pendingLost, 11), (.tornMerge, 11)] := by decide
+
+/-- every other classified entry point — process_welcome (both cases), create_message, add_members, remove_members,
+    update_group_data, self_update, leave_group, clear_pending_commit, the failure-recording paths, the start-up
+    prune and the step functions — has NO unrecoverable prefix -/
+theorem other_entry_points_recoverable :
+    ∀ x ∈ CrashSeq.openPrefixes, x.1 ∈ [0, 1, 4, 5, 14, 23] := by decide
+
+def coreClass : CrashCore.Class → CrashSeq.ClassG
+  | .recoverable => .recoverable
+  | .decryptConsumed => .decryptConsumed
+  | .msgSavedNoRecord => .msgSavedNoRecord
+  | .dedupBlocks => .dedupBlocks
+  | .snapshotLeft => .snapshotLeft
+  | .tornMerge => .tornMerge
+  | .appliedNoRecord => .appliedNoRecord
+  | .pendingLost => .pendingLost
+
+/-- the generic procedure agrees with the table of the four calls whose prefix theorems above hold for EVERY store -/
+theorem generic_agrees_with_core (kind : CrashCore.Kind) (k : Nat) (hk : k < (CrashCore.writes kind).length) :
+    CrashSeq.classifyG (CrashSeq.modeOf kind.case) (CrashCore.writes kind) k (CrashSeq.freshStore kind.case false)
+      = coreClass (CrashCore.classify kind k) := by
+  cases kind with
+  | application =>
+    have : k = 0 ∨ k = 1 ∨ k = 2 ∨ k = 3 ∨ k = 4 := by simp [writes_application] at hk; omega
+    rcases this with e | e | e | e | e <;> subst e <;> decide
+  | commit =>
+    have : k = 0 ∨ k = 1 ∨ k = 2 ∨ k = 3 ∨ k = 4 ∨ k = 5 ∨ k = 6 := by simp [writes_commit] at hk; omega
+    rcases this with e | e | e | e | e | e | e <;> subst e <;> decide
+  | welcome =>
+    have : k = 0 ∨ k = 1 ∨ k = 2 ∨ k = 3 := by simp [writes_welcome] at hk; omega
+    rcases this with e | e | e | e <;> subst e <;> decide
+  | merge =>
+    have : k = 0 ∨ k = 1 ∨ k = 2 := by simp [writes_merge] at hk; omega
+    rcases this with e | e | e <;> subst e <;> decide
+
+
+/-! ### the two other calls with an open mechanism, for EVERY store (not only the fresh stores of `Model.CrashSeq`) -/
+
+/-- the regenerated sequences of accept_welcome and of a leave proposal that the receiving admin auto-commits -/
+theorem accept_and_autocommit_sequences_match_source :
+    CrashCore.expand 14 ((CrashCore.sourcePaths 14).headD []) = [.joinMls, .acceptWelcome, .activate, .saveRelays] ∧
+    CrashCore.expand 5 ((CrashCore.sourcePaths 5).headD []) = [.saveSecret, .consume, .storeProposal, .setPending, .saveSecret, .savePm 1] := by
+  decide
+
+/-- **accept_prefix_all_stores.**  `accept_welcome` on ANY store whose welcome is not yet Accepted: a death is
+    recovered before the welcome record is turned Accepted (OpenMLS's `into_group` may have stored the group: the
+    retry replaces it) and after the group record is Active; in between — welcome Accepted, group record still
+    Pending — the retry is refused ("already accepted") and the group never becomes Active: `torn-accept`. -/
+theorem accept_prefix_all_stores (d : CrashCore.Db) (h : d.accepted = false) (ha : d.active = false) :
+    let ws : List CrashCore.W := [.joinMls, .acceptWelcome, .activate, .saveRelays]
+    CrashSeq.recoveredG .accept ws 0 d = true ∧ CrashSeq.recoveredG .accept ws 1 d = true ∧
+    CrashSeq.recoveredG .accept ws 2 d = false ∧ CrashSeq.recoveredG .accept ws 3 d = true := by
+  refine ⟨?_, ?_, ?_, ?_⟩ <;>
+    simp [CrashSeq.recoveredG, CrashSeq.crashAtG, CrashSeq.retryG, CrashSeq.obsG, CrashCore.run, CrashCore.applyW, h, ha]
+
+/-- **autocommit_prefix_all_stores.**  A leave proposal that the receiving admin auto-commits, on ANY store that
+    has not seen the event: recovered before OpenMLS decrypts; after the decryption and before the pending commit
+    is stored the retry is refused and the proposal (or its commit) is lost — `decrypt-consumed-retry-refused`;
+    once the commit is stored only the dedup record of the event differs. -/
+theorem autocommit_prefix_all_stores (d : CrashCore.Db) (h1 : d.pm = 0) (h2 : d.consumed = false) (h3 : d.pending = false) :
+    let ws : List CrashCore.W := [.saveSecret, .consume, .storeProposal, .setPending, .saveSecret, .savePm 1]
+    CrashSeq.recoveredG .message ws 0 d = true ∧ CrashSeq.recoveredG .message ws 1 d = true ∧
+    CrashSeq.recoveredG .message ws 2 d = false ∧ CrashSeq.recoveredG .message ws 3 d = false ∧
+    CrashSeq.recoveredG .message ws 4 d = true ∧ CrashSeq.recoveredG .message ws 5 d = true := by
+  refine ⟨?_, ?_, ?_, ?_, ?_, ?_⟩
+  · simp [CrashSeq.recoveredG, CrashSeq.crashAtG, CrashSeq.retryG, CrashSeq.obsG, CrashCore.run, h1, h2]
+  · by_cases hm : d.mlsE ∈ d.secrets <;>
+      simp [CrashSeq.recoveredG, CrashSeq.crashAtG, CrashSeq.retryG, CrashSeq.obsG, CrashCore.run, CrashCore.applyW, h1, h2, hm]
+  · by_cases hm : d.mlsE ∈ d.secrets <;>
+      simp [CrashSeq.recoveredG, CrashSeq.crashAtG, CrashSeq.retryG, CrashSeq.obsG, CrashCore.run, CrashCore.applyW, h1, h2, h3, hm]
+  · by_cases hm : d.mlsE ∈ d.secrets <;>
+      simp [CrashSeq.recoveredG, CrashSeq.crashAtG, CrashSeq.retryG, CrashSeq.obsG, CrashCore.run, CrashCore.applyW, h1, h2, h3, hm]
+  · by_cases hm : d.mlsE ∈ d.secrets <;>
+      simp [CrashSeq.recoveredG, CrashSeq.crashAtG, CrashSeq.retryG, CrashSeq.obsG, CrashCore.run, CrashCore.applyW, h1, h2, h3, hm]
+  · by_cases hm : d.mlsE ∈ d.secrets <;>
+      simp [CrashSeq.recoveredG, CrashSeq.crashAtG, CrashSeq.retryG, CrashSeq.obsG, CrashCore.run, CrashCore.applyW, h1, h2, h3, hm]
+
+
+/-- non-vacuity: the hypotheses of the three statements above hold of concrete stores and of the table -/
+example : (CrashSeq.freshStore 14 false).accepted = false ∧ (CrashSeq.freshStore 14 false).active = false ∧
+    (CrashSeq.freshStore 5 true).pm = 0 ∧ (CrashSeq.freshStore 5 true).consumed = false ∧ (CrashSeq.freshStore 5 true).pending = false ∧
+    (1, [[1, 40, 15, 41, 1, 17, 22]]) ∈ Generated.writeSeq ∧ CrashSeq.modelled 1 = true ∧
+    CrashSeq.freshStore 1 true ∈ CrashSeq.freshStores 1 := by decide
+
 
 end MdkVerif.Props.C12
